@@ -1,4 +1,5 @@
 import Spake2Verif.Proofs.PropAuxA
+import Spake2Verif.Proofs.ProtoFlowTie
 /-!
 # C07 — An instance is single-use over every call history
 
@@ -325,5 +326,18 @@ example :
       [.serialize, .finish [66, 1], .start, .start, .finish [66, 2], .serialize, .restore, .start,
        .finish [66, 2], .finish [66, 2]] 9).xyScalar = some 4 := by
   constructor <;> decide +kernel
+
+/-- Tie A: the single-use state machine reasoned about above is that of the *source* -- `start`, `finish`, the guard
+of `serialize` and the restore path equal the translation of the method bodies (each flag is tested, then set, before
+any other effect; `serialize` only tests `_started`; restore sets `_started`), and `__init__` leaves both flags `False` -/
+theorem state_machine_is_the_source {G : Group} :
+    @Inst.start G = ProtoFlowTie.flowStart ∧ @Inst.finish G = ProtoFlowTie.flowFinish ∧
+    (fun i : Inst G => (i, i.serialize)) = ProtoFlowTie.flowSerialize ∧
+    @fromDict G = ProtoFlowTie.flowRestore ∧
+    (∀ (side : Side) (pw idA idB : Bytes) (params : Params G) (ent : Entropy),
+      (Inst.new side pw idA idB params ent).started = Spake2Model.Gen.ProtoFlow.init_started ∧
+      (Inst.new side pw idA idB params ent).finished = Spake2Model.Gen.ProtoFlow.init_finished) :=
+  ⟨ProtoFlowTie.start_is_source, ProtoFlowTie.finish_is_source, ProtoFlowTie.serialize_is_source,
+    ProtoFlowTie.restore_is_source, ProtoFlowTie.init_flags_tie⟩
 
 end Spake2Verif.C07
